@@ -611,7 +611,10 @@ func (a *analysis) checkRecovery(x *verifkit.Exec) {
 		}
 	}
 	// R5: a fatal cause degrades the pipeline and is never recovered from
-	if fatalInjected != "" && !x.StepCapHit && x.W.SlowestBusyAnswer() < 5*time.Second {
+	if fatalInjected != "" && !x.StepCapHit && x.W.SlowestBusyAnswer() < 5*time.Second && len(x.Armed) == 0 {
+		// (not under an armed preemption either: with node goroutines held at a statement the restarted run's source opens
+		// only AFTER its Running status is written, and the attribution of opens to recovery restarts above relies on the
+		// usual order)
 		for _, s := range sts {
 			if s.seq > fatalInjectedSeq && s.status == "Recovering" {
 				a.bad("C10/fatal-cause-recovered/"+p.Engine, "%s (event #%d), a fatal cause, but the pipeline went to Recovering (event #%d) instead of Degraded", fatalInjected, fatalInjectedSeq, s.seq)
